@@ -86,6 +86,16 @@ Theorem offered_config_valid :
         (acc_granule_of a (acc_type bt bits scaled)) (Z.max lut (ar_reserved_end_banks a)) (cf_cfg cf).
 Proof. exact try_config_valid_lemma. Qed.
 
+(* selected => accepted: the block the scheduler's search (find_block_config) selects passes, with the same layout,
+   the validity test the command stream generator runs on it (try_block_config, traversal as chosen by the search) *)
+Theorem selected_is_accepted :
+  forall a bt ofm ifm ifm2 us bits k lut scaled rs cf,
+    In a arch_table ->
+    find_block_config a bt (shape_of_block ofm) (shape_of_block ifm) (option_map shape_of_block ifm2) us bits k lut scaled rs
+      = Some (Some cf) ->
+    try_block_config a (c_ofm_block (cf_cfg cf)) bt ofm ifm ifm2 us bits (cf_partkernel cf) k lut scaled rs = Some (Some cf).
+Proof. exact selected_is_accepted_lemma. Qed.
+
 (* offered => accepted holds on the accelerators whose accumulator granules make a 32-bit accumulator block never
    need more banks than the 40-bit one ... *)
 Theorem offered_is_accepted_partial :
@@ -130,6 +140,7 @@ Print Assumptions layout_okb_means.
 Print Assumptions find_config_valid.
 Print Assumptions find_fuel_adequate.
 Print Assumptions offered_config_valid.
+Print Assumptions selected_is_accepted.
 Print Assumptions offered_is_accepted_partial.
 Print Assumptions scaling_agnostic_rows.
 Print Assumptions offered_is_accepted_refuted.
